@@ -574,7 +574,7 @@ Section C06T.
       assert (H1 : TO s1) by (apply (TO_eq s); [apply cev_view; exact Hti|apply opens_new_ok; exact NO|exact HA]).
       assert (A2 : TO (set_task t tk2 s1)).
       { apply (TO_set_same s1 _ t None tk tk2 Hg1 U2); [reflexivity|reflexivity|apply cev_set_task|exact H1]. }
-      destruct (tk_deps tk ++ futs (extract y')); exact A2.
+      destruct (futs (extract y')); exact A2.
     - (* Enter *)
       assert (Hfc : ~ In (cid_of c) (map cid_of (tk_ctxs tk))) by (inversion Hwn; subst; auto).
       rewrite (enter_ctx_eff t c s None tk Hg).
